@@ -90,9 +90,13 @@ def main():
         meta["confirmed"] = confirmed
         results = {}
         if confirmed:
+            # run the checks from a snapshot of /verif so that concurrent edits do not disturb them
+            snap = "/tmp/seedchk/verif-" + name
+            shutil.rmtree(snap, ignore_errors=True)
+            sh(["rsync", "-a", "--exclude", ".target*", "--exclude", ".git", "--exclude", "replays", "--exclude", "evidence", "--exclude", "seeded", VERIF + "/", snap + "/"])
             for c in checks:
                 t0 = time.time()
-                rc, out = sh([os.path.join(VERIF, "check"), c, "--tier", tier], cwd=VERIF,
+                rc, out = sh([os.path.join(snap, "check"), c, "--tier", tier], cwd=snap,
                              env=dict(ENV, VERIF_REPO=wt, VERIF_DIR="/tmp/seedchk/vd-" + name), timeout=7200)
                 lines = [l for l in out.splitlines() if l.startswith("VIOLATION") or l.startswith("  ") or l.startswith("MACHINERY") or l.startswith("KNOWN")]
                 results[c] = {"exit": rc, "wall_s": round(time.time() - t0, 1), "first_lines": lines[:6]}
@@ -107,6 +111,7 @@ def main():
         shutil.rmtree(wt, ignore_errors=True)
         shutil.rmtree(target, ignore_errors=True)
         shutil.rmtree("/tmp/seedchk/vd-" + name, ignore_errors=True)
+        shutil.rmtree("/tmp/seedchk/verif-" + name, ignore_errors=True)
         sh(["git", "-C", "/repo", "worktree", "prune"])
 
 
